@@ -10,7 +10,11 @@
     A [Get] is a state machine, one atomic step per round trip (together with the caller's handling of the
     reply), per loader call, per wake-up:
        GSRead  -cached GET key->                value: return it | placeholder: GSProbe | nil: GSKeep (or return)
-       GSKeep  -keepalive->                      GSLock id
+       GSKeep  -keepalive: c.id is set->         GSLock c.id                       (no round trip)
+       GSKeep  -keepalive: SET newid "" PX->     GSInstall newid
+       GSInstall -c.mu: c.id == "" ?->           GSLock newid (c.id := newid, refresh goroutine started)
+                                                 | GSLock c.id (another Get of this client won the race: ITS id is used,
+                                                   the marker [newid] is abandoned and never refreshed)
        GSLock  -SET key id NX GET PX->           nil: GSLoad | existing value: as after GSRead
        GSLoad  -fn returns->                     GSStore id v | GSUnlock (error)
        GSStore -setkey script->                  done (v)      | GSUnlock (error)
@@ -107,7 +111,8 @@ Inductive gres :=
 Inductive gstate :=
 | GSRead | GSKeep | GSLock (id : bytes) | GSLoad (id : bytes) | GSStore (id v : bytes)
 | GSUnlock (id v : bytes) (e : gerr) | GSProbe (ph : bytes) | GSRelease (ph : bytes) | GSWait (ph : bytes)
-| GSDone (r : gres).
+| GSDone (r : gres)
+| GSInstall (newid : bytes).   (* keepalive between its SET and the second critical section *)
 
 Record get := {
   g_cl : nat; g_key : bytes; g_ttl : Z; g_fn : bool;
@@ -214,7 +219,7 @@ Inductive alabel :=
 | ANewClient
 | AStartGet (c : nat) (key : bytes) (ttl : Z) (fn : bool)
 | ARead (g : nat) (hit fail : bool)          (* register(key); cached GET key *)
-| AKeep (g : nat) (newid : bytes) (fail : bool) (* keepalive: reuse c.id or SET newid "" PX ClientTTL *)
+| AKeep (g : nat) (newid : bytes) (fail : bool) (* keepalive saw c.id == "" (then or earlier): SET newid "" PX ClientTTL *)
 | ALock (g : nat) (fail : bool)              (* SET key id NX GET PX ttl / acquireLock *)
 | ALoad (g : nat) (res : option bytes)       (* the loader returns *)
 | AStore (g : nat) (executed replied : bool) (* setkey script *)
@@ -229,7 +234,9 @@ Inductive alabel :=
 | ATick (dt : Z)
 | AClose (c : nat)                           (* Close(): the client context is cancelled (the DEL of its id is an ADel) *)
 | ALost (c : nat)                            (* onInvalidation(nil): id forgotten (its DEL is an ADel), every wait closed, cache flushed *)
-| ARefresh (c : nat).                        (* refresh goroutine: SET id "" PX ClientTTL *)
+| ARefresh (c : nat)                         (* refresh goroutine: SET id "" PX ClientTTL *)
+| AKeepReuse (g : nat)                       (* keepalive found c.id set: no round trip *)
+| AInstall (g : nat).                        (* keepalive after its SET: install the id unless a sibling Get did *)
 
 (** observation of a step by its caller *)
 Inductive aobs :=
@@ -305,20 +312,45 @@ Section Step.
       | None => None
       end
     | AKeep gi newid fail =>
+      (* several Gets of one client may all be here: each has seen c.id == "" and does its own SET; the step is
+         enabled whatever c.id is by now (the check and the SET are not atomic) *)
+      match nth_error (a_gets s) gi with
+      | Some g =>
+        match g_st g with
+        | GSKeep =>
+          if fail then Some (with_get s gi (set_st g (GSDone (RErr [] ENet))), ODone (RErr [] ENet))
+          else
+            let s1 := write s (sset (a_store s) newid [] (a_now s + client_ttl)) newid false in
+            Some (with_get s1 gi (set_st g (GSInstall newid)), ONone)
+        | _ => None
+        end
+      | None => None
+      end
+    | AKeepReuse gi =>
       match nth_error (a_gets s) gi with
       | Some g =>
         match g_st g, nth_error (a_cls s) (g_cl g) with
         | GSKeep, Some cl =>
           match cl_id cl with
           | Some id => Some (with_get s gi (set_st g (GSLock id)), ONone)
+          | None => None
+          end
+        | _, _ => None
+        end
+      | None => None
+      end
+    | AInstall gi =>
+      match nth_error (a_gets s) gi with
+      | Some g =>
+        match g_st g, nth_error (a_cls s) (g_cl g) with
+        | GSInstall newid, Some cl =>
+          match cl_id cl with
+          | Some id => Some (with_get s gi (set_st g (GSLock id)), ONone)   (* [id = c.id]: the installed id, not the own one *)
           | None =>
-            if fail then Some (with_get s gi (set_st g (GSDone (RErr [] ENet))), ODone (RErr [] ENet))
-            else
-              let s1 := write s (sset (a_store s) newid [] (a_now s + client_ttl)) newid false in
-              let cl' := {| cl_id := Some newid; cl_closed := cl_closed cl; cl_cache := cl_cache cl; cl_prev := cl_prev cl |} in
-              Some (with_get {| a_now := a_now s1; a_store := a_store s1; a_track := a_track s1; a_infl := a_infl s1;
-                                a_cls := upd (g_cl g) cl' (a_cls s1); a_gets := a_gets s1; a_loaded := a_loaded s1;
-                                a_ext := a_ext s1; a_lock := a_lock s1 |} gi (set_st g (GSLock newid)), ONone)
+            let cl' := {| cl_id := Some newid; cl_closed := cl_closed cl; cl_cache := cl_cache cl; cl_prev := cl_prev cl |} in
+            Some (with_get {| a_now := a_now s; a_store := a_store s; a_track := a_track s; a_infl := a_infl s;
+                              a_cls := upd (g_cl g) cl' (a_cls s); a_gets := a_gets s; a_loaded := a_loaded s;
+                              a_ext := a_ext s; a_lock := a_lock s |} gi (set_st g (GSLock newid)), ONone)
           end
         | _, _ => None
         end
